@@ -258,15 +258,20 @@ var (
 
 func loadKF() {
 	kfOnce.Do(func() {
-		b, err := os.ReadFile(filepath.Join(VerifDir(), "known_findings.json"))
-		if err != nil {
-			return
-		}
-		var f struct {
-			Findings []KFEntry `json:"findings"`
-		}
-		if json.Unmarshal(b, &f) == nil {
-			kfList = f.Findings
+		paths := []string{filepath.Join(VerifDir(), "known_findings.json")}
+		more, _ := filepath.Glob(filepath.Join("/verif", "checks", "*", "known_findings.json"))
+		paths = append(paths, more...)
+		for _, p := range paths {
+			b, err := os.ReadFile(p)
+			if err != nil {
+				continue
+			}
+			var f struct {
+				Findings []KFEntry `json:"findings"`
+			}
+			if json.Unmarshal(b, &f) == nil {
+				kfList = append(kfList, f.Findings...)
+			}
 		}
 	})
 }
